@@ -182,3 +182,24 @@ func (s *Sched) label(kind string) string {
 	c.n = runtime.Callers(3, c.pcs[:])
 	return kind + " " + c.String()
 }
+
+// MapIter mimics reflect.MapIter over the keys in the order the explorer chose.
+type MapIter struct {
+	m    reflect.Value
+	keys []reflect.Value
+	pos  int
+}
+
+// MapRange is reflect.Value.MapRange under the map-order seam.
+func MapRange(v reflect.Value) *MapIter {
+	return &MapIter{m: v, keys: MapKeys(v), pos: -1}
+}
+
+func (it *MapIter) Next() bool {
+	it.pos++
+	return it.pos < len(it.keys)
+}
+
+func (it *MapIter) Key() reflect.Value { return it.keys[it.pos] }
+
+func (it *MapIter) Value() reflect.Value { return it.m.MapIndex(it.keys[it.pos]) }
